@@ -1,6 +1,9 @@
 package main
 
 import (
+	"runtime"
+	"sync/atomic"
+	"sync"
 	"fmt"
 	"io"
 	"reflect"
@@ -16,6 +19,9 @@ func init() { register("C05", runC05) }
 func runC05(c *mon.Ctx) {
 	c.Cases(func(i int, r *mon.Rand) {
 		c05Identity(c, r.Fork(1))
+		if i%4 == 1 {
+			c05Concurrent(c, r.Fork(11))
+		}
 		c05KeyFn(c, r.Fork(2))
 	})
 }
@@ -152,6 +158,80 @@ func mutateProg(r *mon.Rand, p dprog, pool *strPool) dprog {
 	}
 	// extra subscope level
 	return append(q, dstep{Sub: pool.names[r.Intn(len(pool.names))]})
+}
+
+// c05Concurrent: several goroutines derive the same program from one root at
+// the same moment and ask the resulting scope for the same counter and gauge:
+// one scope, one counter, one gauge, and every increment arrives.
+func c05Concurrent(c *mon.Ctx, r *mon.Rand) {
+	pool := newStrPool(r, true, true, false)
+	rc := pool.root(r)
+	p := pool.prog(r, 3)
+	ids, _ := rc.trace(p)
+	if collides(ids) {
+		return
+	}
+	cached := r.Bool()
+	opts := tally.ScopeOptions{Prefix: rc.Prefix, Separator: rc.Sep, Tags: copyTagMap(rc.Tags), OmitCardinalityMetrics: true}
+	var rec *mon.Recorder
+	if cached {
+		cr := mon.NewCachedRec(false)
+		rec, opts.CachedReporter = cr.Recorder, cr
+	} else {
+		pr := mon.NewPlainRec(false)
+		rec, opts.Reporter = pr.Recorder, pr
+	}
+	prof := mon.RandomProfile(r, []int{tally.VerifMetricProbeMissed, tally.VerifSubscopeUpgrade}, r.Intn(3))
+	prof.Prob[tally.VerifMetricProbeMissed] = r.Range(300, 900)
+	inj := mon.NewDelayInjector(r.U64(), prof, false)
+	inj.Install()
+	defer inj.Uninstall()
+	root, _ := vNewRoot(opts, 0, uint(r.Range(0, 8)))
+	G := r.Range(2, 8)
+	c.Eval(1)
+	desc := map[string]interface{}{"root": rc, "program": p, "goroutines": G, "cached": cached}
+	scs := make([]tally.Scope, G)
+	ctrs := make([]tally.Counter, G)
+	gs := make([]tally.Gauge, G)
+	var wg sync.WaitGroup
+	var ready int32
+	for g := 0; g < G; g++ {
+		wg.Add(1)
+		go func(g int) {
+			defer wg.Done()
+			defer func() { recover() }()
+			atomic.AddInt32(&ready, 1)
+			for atomic.LoadInt32(&ready) < int32(G) {
+				runtime.Gosched()
+			}
+			x := p.clone().apply(root)
+			scs[g] = x[len(x)-1]
+			ctrs[g] = scs[g].Counter("m")
+			gs[g] = scs[g].Gauge("m")
+			ctrs[g].Inc(1 << uint(g))
+		}(g)
+	}
+	wg.Wait()
+	ptr := func(s tally.Scope) uintptr { return reflect.ValueOf(s).Pointer() }
+	for g := 1; g < G; g++ {
+		if scs[g] == nil || scs[0] == nil {
+			c.Violation("panic/concurrent", map[string]interface{}{"why": "a goroutine panicked while deriving", "case": desc})
+			return
+		}
+		if ptr(scs[g]) != ptr(scs[0]) {
+			c.Violation("identity-split/concurrent", map[string]interface{}{"why": fmt.Sprintf("goroutines 0 and %d derived the same program at the same moment and got different scopes", g), "case": desc})
+		}
+		if ctrs[g] != ctrs[0] || gs[g] != gs[0] {
+			c.Violation("metric-split/concurrent", map[string]interface{}{"why": fmt.Sprintf("goroutines 0 and %d asked one scope for the same counter/gauge at the same moment and got different metrics", g), "case": desc})
+		}
+	}
+	tally.VerifReportPass(root)
+	_, agg, _ := rec.Snapshot()
+	final := ids[len(ids)-1]
+	if got, want := agg[mon.IdentKey(rc.metricName(final, "m"), final.Tags)].Sum, int64(1)<<uint(G)-1; got != want {
+		c.Violation("missing-delivery/concurrent", map[string]interface{}{"why": fmt.Sprintf("delivered %#x, recorded %#x through the handles obtained at the same moment", got, want), "case": desc})
+	}
+	c.Event("concurrent-derivations", int64(G))
 }
 
 func c05Identity(c *mon.Ctx, r *mon.Rand) {
